@@ -9,8 +9,8 @@ import (
 
 func init() {
 	register(&PropDef{
-		ID:    "C19",
-		Level: "other",
+		ID:          "C19",
+		Level:       "other",
 		Explanation: "Byte-level completeness is trusted to the OS and libraries; decided is the wiring of the two streams and the key of the log files: LABELS — the writer opened with \"stdout\" reaches (by def-use flow through locals, append, io.MultiWriter) exactly the stdout position of CompileTask and not the stderr position, and vice versa; in the loaded upstream source CompileTask hands its stdout/stderr parameters to the same positions of CompileCommand, which stores them into Job.Stdout/Job.Stderr; every NewPgidExecutor call receives (job.Stdin, job.Stdout, job.Stderr); inside it the stdout/stderr parameters reach the out/err positions of interp.StdIO; the exec handler builds exec.Cmd{Stdout: hc.Stdout, Stderr: hc.Stderr}; the log handler puts the \"stdout\" reader's bytes into the stdout field and the \"stderr\" reader's into stderr; KEY — writer and reader build the path with one function that uses all of (job id, task name, stream); the writer is opened once per task run (not in a loop) with the task's own job-id variable and name; MEMBERSHIP — every Reader call of the log handler is dominated by the task-exists edge, which is set only under ReadJob when the job has a task of that name.",
 		Trusted:     []string{"os.File writes are complete and ordered per descriptor", "mvdan/sh passes StdIO to every command of a script", "upstream executor.Job fields are what the executor reads"},
 		NotDecided:  []string{"completeness/order of bytes", "concurrent writers of different jobs (distinct files by the key rule)"},
@@ -159,7 +159,9 @@ func checkC19(w *World, r *Report) {
 		}
 	}
 	// ---- f. log handler: readers → response fields; membership
-	if h := w.FuncByRole("server", "(*server).jobLogs", func(f *ssa.Function) bool { return len(findCalls(f, func(n string, c *ssa.CallCommon) bool { return c.IsInvoke() && c.Method.Name() == "Reader" })) > 0 }); h != nil {
+	if h := w.FuncByRole("server", "(*server).jobLogs", func(f *ssa.Function) bool {
+		return len(findCalls(f, func(n string, c *ssa.CallCommon) bool { return c.IsInvoke() && c.Method.Name() == "Reader" })) > 0
+	}); h != nil {
 		hname := FuncName(h)
 		readers := findCalls(h, func(n string, c *ssa.CallCommon) bool { return c.IsInvoke() && c.Method.Name() == "Reader" })
 		var existsIf *ifFact
@@ -233,7 +235,9 @@ func checkC19(w *World, r *Report) {
 	// ---- KEY: one path function uses all three components
 	fs := w.NamedType("taskctl", "FileOutputStore")
 	if fs != nil {
-		bp := w.FuncByRole("taskctl", "(*FileOutputStore).buildPath", func(f *ssa.Function) bool { return recvIs(f, "FileOutputStore") && sigHas(f, []string{"string", "string", "string"}, []string{"string"}) })
+		bp := w.FuncByRole("taskctl", "(*FileOutputStore).buildPath", func(f *ssa.Function) bool {
+			return recvIs(f, "FileOutputStore") && sigHas(f, []string{"string", "string", "string"}, []string{"string"})
+		})
 		if bp == nil {
 			r.Viol("key.path-function", "FileOutputStore: path function", "-", "no buildPath method: writer and reader cannot be shown to agree")
 		} else {
